@@ -248,7 +248,7 @@ func (x *Exec) callContract(fr *Frame, st *State, ins ssa.Instruction, u *FuncUn
 	// effects
 	x.applyEffects(st, u, callee)
 	// results
-	res := x.freshVal(resT, "r_"+callee.Name())
+	res := x.freshVal(resT, "r_"+u.Key)
 	x.assumeWF(st, resT, res.L)
 	if u.Post != nil {
 		pargs := append([]Val{}, args...)
@@ -265,6 +265,9 @@ func (x *Exec) callContract(fr *Frame, st *State, ins ssa.Instruction, u *FuncUn
 		pargs = append(pargs, olds...)
 		post := x.runSpec2(u.Post, st, pre0, pargs)
 		x.assume(st, tb.And(post.L...))
+		for _, a := range u.C.Assumes {
+			x.assumed[fmt.Sprintf("assumed postcondition of %s: %s", cname, a.Expr)] = true
+		}
 	}
 	return res
 }
@@ -286,7 +289,7 @@ func (x *Exec) applyEffects(st *State, u *FuncUnit, callee *ssa.Function) {
 			if m == "*" {
 				eff.Top = true
 			} else {
-				eff.Classes[m] = true
+				eff.Classes[resolveClass(u, m)] = true
 			}
 		}
 		if callee != nil && callee.Blocks != nil {
@@ -303,6 +306,14 @@ func (x *Exec) applyEffects(st *State, u *FuncUnit, callee *ssa.Function) {
 		return
 	}
 	x.applyEff(st, x.effectsOf(callee))
+}
+
+// resolveClass: "Type.field" of the contract's package -> heap class key; keys containing ':' are raw.
+func resolveClass(u *FuncUnit, m string) string {
+	if strings.Contains(m, ":") {
+		return m
+	}
+	return "f:" + u.Pkg.Path + "." + m
 }
 
 func subset(a, b map[string]bool) bool {
@@ -689,15 +700,26 @@ func (x *Exec) special(fr *Frame, st *State, ins ssa.Instruction, callee *ssa.Fu
 		x.heapSet(st, bytesClass, tb.Store(H, b.L[0], h))
 		return Val{T: resT}, true
 	case "(*sync.Mutex).Lock", "(*sync.RWMutex).Lock", "(*sync.RWMutex).RLock":
+		if x.noLockHavoc(fr.fn) {
+			x.assumed["locks of package "+pkgOf(fr.fn)+" are not modelled: no concurrent mutation of a Message while it is used (option nolockhavoc)"] = true
+			return Val{T: resT}, true
+		}
 		ref := x.lockRef(args[0])
 		h := x.heapGet(st, "g:held", tb.Array(tb.BV(64), tb.Bool))
 		x.addObl(fr, st, "lock", ins, "", tb.Not(tb.Select(h, ref)))
 		// state protected by the mutex may have been changed by other goroutines
-		x.havocAll(st)
+		if !x.noLockHavoc(fr.fn) {
+			x.havocAll(st)
+		} else {
+			x.assumed["no concurrent mutation while a lock of package "+pkgOf(fr.fn)+" is not held (option nolockhavoc)"] = true
+		}
 		h = x.heapGet(st, "g:held", tb.Array(tb.BV(64), tb.Bool))
 		x.heapSet(st, "g:held", tb.Store(h, ref, tb.True))
 		return Val{T: resT}, true
 	case "(*sync.Mutex).Unlock", "(*sync.RWMutex).Unlock", "(*sync.RWMutex).RUnlock":
+		if x.noLockHavoc(fr.fn) {
+			return Val{T: resT}, true
+		}
 		ref := x.lockRef(args[0])
 		h := x.heapGet(st, "g:held", tb.Array(tb.BV(64), tb.Bool))
 		x.addObl(fr, st, "lock", ins, "", tb.Select(h, ref))
@@ -854,4 +876,15 @@ func (x *Exec) runSpec2(fn *ssa.Function, st *State, old *State, args []Val) Val
 	sub.reach = x.tb.True
 	_, res := x.runFunc(nf, sub)
 	return res
+}
+
+func (x *Exec) noLockHavoc(fn *ssa.Function) bool {
+	for fn.Parent() != nil {
+		fn = fn.Parent()
+	}
+	if fn.Pkg == nil {
+		return false
+	}
+	lp := x.ld.Pkgs[fn.Pkg.Pkg.Path()]
+	return lp != nil && lp.CF != nil && lp.CF.Options["nolockhavoc"]
 }
